@@ -39,6 +39,9 @@ var c05stacks = []c05stack{
 	{"cache", "", true}, {"cache-deep", "d", true}, {"tar", "", true}, {"tar-deep", "d", true}, {"tar-failed", "", true}, {"tar-failed-deep", "d", true},
 }
 
+// stacks whose top directory is itself a mount point of the top-level mount.FS
+var c05topIsMountPoint = map[string]bool{"mount1": true, "mount2": true, "mount-nested": true, "mount-nested-inner": true, "sub-dot(mount1)": true, "sub(mount-above)": true}
+
 type c05built struct {
 	fs      hackpadfs.FS
 	setupFS hackpadfs.FS // where setup steps are applied for read-only stacks
@@ -301,6 +304,9 @@ func c05extraBuild() {
 		add("Rename/missing->root", nil, fsx.Step{K: "Rename", P: "c", P2: "."})
 		add("Rename/root->child", dir, fsx.Step{K: "Rename", P: ".", P2: "a/c"})
 		add("Rename/root->root", nil, fsx.Step{K: "Rename", P: ".", P2: "."})
+		// a directory moved into its own subtree: EINVAL from the kernel itself on os-backed stacks
+		add("Rename/dir->own-subtree", dir, fsx.Step{K: "Rename", P: "a", P2: "a/c"})
+		add("Rename/dir->own-subtree-deeper", append(append([]fsx.Step(nil), dir...), fsx.Step{K: "Mkdir", P: "a/b", Perm: 0o755}), fsx.Step{K: "Rename", P: "a", P2: "a/b/c"})
 		add("Symlink/file->root", file, fsx.Step{K: "Symlink", P: "a", P2: "."})
 		add("Mkdir/root", nil, fsx.Step{K: "Mkdir", P: ".", Perm: 0o755})
 		// Remove of the top itself: os.Remove(".") is EINVAL whatever the directory holds (the reference, which removes by
@@ -358,6 +364,7 @@ func init() {
 
 func c05run(env *core.Env, idx int) core.CaseResult {
 	var res core.CaseResult
+	fsx.RecordErrors.Store(true)
 	cc := c05cases(env)[idx]
 	stack := c05stacks[cc.Stack]
 	var cs c01case
@@ -488,6 +495,22 @@ func c05run(env *core.Env, idx int) core.CaseResult {
 		var rr fsx.Result
 		if st.K == "Remove" && raw.P == "." && !invalidRide {
 			if stack.name != "mem" && stack.name != "mount0" && stack.name != "sub-dot(mem)" {
+				if c05topIsMountPoint[stack.name] && !stack.readOnly {
+					// the top is a mount point: os has no counterpart whose class could be compared, but whatever the
+					// answer is, it is a *PathError naming the path passed in, the second time as well as the first
+					for rep := 1; rep <= 2; rep++ {
+						sr := fsx.Exec(b.fs, st, &sh, nil)
+						if sr.OK() || sr.Panic != "" {
+							break
+						}
+						res.Count("failing_calls_checked", 1)
+						res.Nontrivial = true
+						if sr.Typ != "PathError" || sr.EPath != st.P {
+							res.Violate(fmt.Sprintf("C05|%s|Remove|mount-point|path:%s", c05stackKind(stack.name), c05pathKind(sr.EPath, st.P)), fmt.Sprintf("[%s] %s (a mount point), call %d: %s names %q, expected the path passed in", stack.name, st, rep, sr, sr.EPath), map[string]any{"stack": stack.name, "step": st.String(), "repetition": rep})
+							break
+						}
+					}
+				}
 				continue // (only where "." is the file system's own root: the top of a Sub view or os root is a directory of its parent)
 			}
 			rr = fsx.Result{Err: "ErrInvalid", Typ: "PathError", EPath: "."}
@@ -553,6 +576,11 @@ func c05run(env *core.Env, idx int) core.CaseResult {
 		if rr.OK() && !strings.HasPrefix(stack.name, "tar-failed") {
 			break // failure where os succeeds: states diverged (C01's concern)
 		}
+	}
+	// errors already handed to the caller do not change afterwards (all errors this process has seen since the last look)
+	for _, ch := range fsx.ChangedErrors() {
+		res.Violate("C05|returned-error-changed-later", fmt.Sprintf("[%s] %s: the error object a caller holds was rewritten by a later call", stack.name, ch), map[string]any{"stack": stack.name, "history": fsx.HistoryString(steps)})
+		break
 	}
 	if idx%499 == 0 {
 		res.Sample = map[string]any{"stack": stack.name, "prefix": stack.prefix, "case": cs.Name, "history": fsx.HistoryString(cs.Hist)}
